@@ -1,6 +1,7 @@
 package checks
 
 import (
+	"github.com/monstermichl/typeshell/lexer"
 	"strings"
 	"encoding/json"
 	"fmt"
@@ -121,4 +122,15 @@ func wrapInBlock(lines string, form int, k int) string {
 		return fmt.Sprintf("for wj%d := 0; wj%d < 2; wj%d++ {\n\tif wj%d == 1 {\n", k, k, k, k) + ind(ind(lines)) + "\t}\n}\n"
 	}
 	return lines
+}
+
+// safeTokenize calls the lexer under test; a panic becomes an error value ("PANIC: ...") instead of killing the
+// shard, so that the check can report it (C11: a token list was expected; C13: totality).
+func safeTokenize(src string) (toks []lexer.Token, err error) {
+	defer func() {
+		if p := recover(); p != nil {
+			toks, err = nil, fmt.Errorf("PANIC: %v", p)
+		}
+	}()
+	return lexer.Tokenize(src)
 }
